@@ -71,6 +71,8 @@ class WorldC06(World):
             'pmutt.empirical.nasa.Nasa', 'pmutt.io._get_file_timestamp')
     SIMULATED = ('disk: SimFS (open/write/close errors, ENOSPC after k characters, crash at four points, read errors)',
                  'clock: SimClock bound to pmutt.io.datetime', 'hash seed (ELEMENTS order comes from a set)',
+                 'allocator: SimAlloc (MemoryError at a seeded function entry of the writer call)',
+                 'file names: symbolic links, bare names from changing working directories; LF, CRLF and CR line ends',
                  '1-3 clients writing the files of one or two mechanisms in any order, repeatedly')
     ASSUMPTIONS = ('every printed number is compared with the value the model gives when called afresh with pristine arguments '
                    'on a twin model rebuilt from the same description',)
